@@ -927,3 +927,66 @@ Section EndToEnd.
     exists s. split; [|exact Hs]. unfold process. rewrite Eg, Es. reflexivity.
   Qed.
 End EndToEnd.
+
+(* ------------------------------------------------------------------ *)
+(* the bounding box does not depend on the order of the inputs *)
+Lemma zmin_list_in l : forall a, zmin_list a l = a \/ In (zmin_list a l) l.
+Proof.
+  induction l as [|y l IH]; intros a; cbn [zmin_list]; [left; reflexivity|].
+  destruct (IH (Z.min a y)) as [E|E].
+  - rewrite E. destruct (Z.min_spec a y) as [[_ ->]|[_ ->]]; [left; reflexivity|right; left; reflexivity].
+  - right; right; assumption.
+Qed.
+
+Lemma zmax_list_in l : forall a, zmax_list a l = a \/ In (zmax_list a l) l.
+Proof.
+  induction l as [|y l IH]; intros a; cbn [zmax_list]; [left; reflexivity|].
+  destruct (IH (Z.max a y)) as [E|E].
+  - rewrite E. destruct (Z.max_spec a y) as [[_ ->]|[_ ->]]; [right; left; reflexivity|left; reflexivity].
+  - right; right; assumption.
+Qed.
+
+Lemma zmin_list_same a l b l' :
+  (forall x, In x (a :: l) <-> In x (b :: l')) -> zmin_list a l = zmin_list b l'.
+Proof.
+  intros Hs.
+  assert (H1 : In (zmin_list a l) (a :: l)) by (destruct (zmin_list_in l a) as [->|H]; [left; reflexivity|right; assumption]).
+  assert (H2 : In (zmin_list b l') (b :: l')) by (destruct (zmin_list_in l' b) as [->|H]; [left; reflexivity|right; assumption]).
+  assert (L1 : forall x, In x (a :: l) -> zmin_list a l <= x).
+  { intros x [<-|Hx]; [apply (proj1 (zmin_list_le l a))|apply (proj2 (zmin_list_le l a)); assumption]. }
+  assert (L2 : forall x, In x (b :: l') -> zmin_list b l' <= x).
+  { intros x [<-|Hx]; [apply (proj1 (zmin_list_le l' b))|apply (proj2 (zmin_list_le l' b)); assumption]. }
+  pose proof (L1 _ (proj2 (Hs _) H2)). pose proof (L2 _ (proj1 (Hs _) H1)). lia.
+Qed.
+
+Lemma zmax_list_same a l b l' :
+  (forall x, In x (a :: l) <-> In x (b :: l')) -> zmax_list a l = zmax_list b l'.
+Proof.
+  intros Hs.
+  assert (H1 : In (zmax_list a l) (a :: l)) by (destruct (zmax_list_in l a) as [->|H]; [left; reflexivity|right; assumption]).
+  assert (H2 : In (zmax_list b l') (b :: l')) by (destruct (zmax_list_in l' b) as [->|H]; [left; reflexivity|right; assumption]).
+  assert (L1 : forall x, In x (a :: l) -> x <= zmax_list a l).
+  { intros x [<-|Hx]; [apply (proj1 (zmax_list_ge l a))|apply (proj2 (zmax_list_ge l a)); assumption]. }
+  assert (L2 : forall x, In x (b :: l') -> x <= zmax_list b l').
+  { intros x [<-|Hx]; [apply (proj1 (zmax_list_ge l' b))|apply (proj2 (zmax_list_ge l' b)); assumption]. }
+  pose proof (L1 _ (proj2 (Hs _) H2)). pose proof (L2 _ (proj1 (Hs _) H1)). lia.
+Qed.
+
+Lemma bbox_order_independent (ax ay : fits_desc -> Z) d0 rest d0' rest' :
+  (forall d, In d (d0 :: rest) <-> In d (d0' :: rest')) ->
+  xmin_of ax d0 rest = xmin_of ax d0' rest' /\ ymin_of ay d0 rest = ymin_of ay d0' rest' /\
+  xmax_of ax d0 rest = xmax_of ax d0' rest' /\ ymax_of ay d0 rest = ymax_of ay d0' rest'.
+Proof.
+  intros Hs.
+  assert (Hmap : forall (f : fits_desc -> Z) x,
+            In x (f d0 :: map f rest) <-> In x (f d0' :: map f rest')).
+  { intros f x. change (f d0 :: map f rest) with (map f (d0 :: rest)).
+    change (f d0' :: map f rest') with (map f (d0' :: rest')). rewrite !in_map_iff.
+    split; intros (d & E & Hd); exists d; (split; [assumption|apply Hs; assumption]). }
+  unfold xmin_of, ymin_of, xmax_of, ymax_of.
+  repeat split.
+  - apply zmin_list_same, (Hmap ax).
+  - apply zmin_list_same, (Hmap ay).
+  - apply zmax_list_same, (Hmap (fun d => ax d + (fd_w d - 1))).
+  - apply zmax_list_same, (Hmap (fun d => ay d + (fd_h d - 1))).
+Qed.
